@@ -459,7 +459,7 @@ fn arena_workload<const M: usize>(bytes: &[u8], thorough: bool) -> ArenaOut {
                 }
                 let km = k_meta();
                 let refused = evs.iter().any(|x| x.kind == EvKind::Refuse);
-                if !refused && last_chunk > km && e.size.saturating_sub(km) < 2 * (last_chunk - km) {
+                if !refused && last_chunk > km && e.size.saturating_sub(km) + crate::sim::DOUBLING_SLACK < 2 * (last_chunk - km) {
                     out.viol.push(format!("Bump<{M}>: new chunk of {} bytes is less than double the previous one ({last_chunk}) although nothing was refused and no limit is set", e.size));
                 }
                 last_chunk = e.size;
